@@ -7378,8 +7378,16 @@ void SymbolDatabase::setValueType(Token* tok, const ValueType& valuetype, const 
         if (vt1->pointer != 0U) {
             if (ternary || parent->tokType() == Token::eIncDecOp) // result is pointer
                 setValueType(parent, *vt1);
-            else // result is pointer diff
-                setValueType(parent, ValueType(ValueType::Sign::SIGNED, ValueType::Type::INT, 0U, 0U, "ptrdiff_t"));
+            else { // result is pointer diff: ptrdiff_t is as wide as size_t
+                ValueType::Type type = ValueType::Type::INT;
+                if (mSettings.platform.sizeof_size_t != mSettings.platform.sizeof_int) {
+                    if (mSettings.platform.sizeof_size_t == mSettings.platform.sizeof_long)
+                        type = ValueType::Type::LONG;
+                    else if (mSettings.platform.sizeof_size_t == mSettings.platform.sizeof_long_long)
+                        type = ValueType::Type::LONGLONG;
+                }
+                setValueType(parent, ValueType(ValueType::Sign::SIGNED, type, 0U, 0U, "ptrdiff_t"));
+            }
             return;
         }
 
